@@ -75,6 +75,9 @@ pub struct Profile {
     pub big_rewards: bool,
     /// interleave swap / oracle stub faults (fail, garbage prices) with the history
     pub stub_faults: bool,
+    /// exits take the whole balance most of the time (pools and supplies run to exactly zero
+    /// while requests are still pending)
+    pub full_exits: bool,
 }
 
 pub fn profile(name: &str) -> Profile {
@@ -92,6 +95,7 @@ pub fn profile(name: &str) -> Profile {
         init_balances: false,
         big_rewards: false,
         stub_faults: false,
+        full_exits: false,
     };
     match name {
         "mixed" => base,
@@ -155,6 +159,15 @@ pub fn profile(name: &str) -> Profile {
             name: "stubs",
             stub_faults: true,
             w: [10, 8, 10, 5, 8, 6, 2, 10, 3, 2, 5, 6, 4, 2, 1, 1, 0, 0],
+            ..base
+        },
+        // whole-supply exits: a token's entire supply queued in the open batch (supply 0, requests
+        // > 0) with the other pool alive, then slashing and slashing checks inside that window
+        "drain" => Profile {
+            name: "drain",
+            full_exits: true,
+            epochs: vec![30, 100],
+            w: [5, 5, 16, 3, 3, 1, 0, 5, 9, 1, 1, 2, 0, 8, 0, 0, 0, 0],
             ..base
         },
         // validators registry changes mid-history
@@ -255,6 +268,9 @@ impl Gen {
     fn amount(&mut self, avail: u128, c: &Chain) -> u128 {
         if avail == 0 {
             return 1 + self.rng.below(3) as u128;
+        }
+        if self.p.full_exits && self.rng.chance(3, 5) {
+            return avail;
         }
         let r = &mut self.rng;
         let raw = c.hub_state_raw();
